@@ -129,11 +129,19 @@ func CheckExec(props map[string]bool, s Scenario, o Outcome) []Finding {
 			}
 		}
 	}
-	if o.Panic != "" || o.BuildErr != "" {
+	if o.BuildErr != "" {
+		return fs
+	}
+	f := analyse(s)
+	if o.Panic != "" {
+		// an unsatisfiable call must be *refused*: a panic, a recursion-depth or step
+		// sentinel is not an error return
+		if !f.allW {
+			add("C02", "no-error", "a target parameter is underivable but the call did not return an error: %s", firstLine(o.Panic))
+		}
 		return fs
 	}
 	checkAffinity(s, o, add)
-	f := analyse(s)
 	// C02
 	if !f.allW {
 		if o.Err == nil {
